@@ -325,3 +325,62 @@ func TestProgramSpaceSamples(t *testing.T) {
 		}
 	}
 }
+
+// TestNoInternalErrors mutates valid blobs word by word; the validator must neither panic nor
+// take the recover path.
+func TestNoInternalErrors(t *testing.T) {
+	var blobs [][]byte
+	blobs = append(blobs, newBase(0x00010300).bytes())
+	for _, name := range []string{"loops", "types", "atomics-barriers", "control"} {
+		src := samplePrograms[name]
+		ast, err := naga.Parse(src)
+		if err != nil {
+			t.Fatal(err)
+		}
+		m, err := naga.LowerWithSource(ast, src)
+		if err != nil {
+			t.Fatal(err)
+		}
+		o := spirv.DefaultOptions()
+		o.Debug = true
+		b, err := naga.GenerateSPIRV(m, o)
+		if err != nil {
+			t.Fatal(err)
+		}
+		blobs = append(blobs, b)
+	}
+	seed := uint32(12345)
+	rnd := func() uint32 { seed = seed*1664525 + 1013904223; return seed >> 8 }
+	n := 0
+	for _, b := range blobs {
+		words := len(b) / 4
+		step := 1
+		if words > 120 {
+			step = words / 120
+		}
+		for w := 0; w < words; w += step {
+			for _, mode := range []int{0, 1, 2, 3} {
+				g := append([]byte{}, b...)
+				switch mode {
+				case 0:
+					g[4*w] ^= byte(1 + rnd()%255)
+				case 1:
+					g[4*w+2] ^= byte(1 + rnd()%7) // word count
+				case 2:
+					v := rnd() % 64
+					g[4*w], g[4*w+1], g[4*w+2], g[4*w+3] = byte(v), 0, 0, 0
+				case 3:
+					g = g[:4*w]
+				}
+				r := Validate(g)
+				n++
+				for _, f := range r.Findings {
+					if len(f.Detail) > 24 && f.Detail[:24] == "validator internal error" {
+						t.Fatalf("internal error at word %d mode %d: %s", w, mode, f.Detail)
+					}
+				}
+			}
+		}
+	}
+	t.Logf("%d mutated blobs validated", n)
+}
